@@ -362,3 +362,19 @@ Print Assumptions C04_engine_answers_kings_only.
 (* non-vacuity: every hypothesis of C04_engine_answers_startpos discharged for the session
    `position startpos moves e2e4 e7e5` / `go depth 1` from a freshly started engine, and the session evaluated by the kernel *)
 Example C04_e2e_instance_computed := EngExamples.e2e_startpos_computed.
+
+(* the null-move clause: executable witnesses (C04Null/NullExamples.v).  A stalemated and a checkmated root are answered with the
+   null move, a root with one legal move with that move (immediate timeout); [cache_sane] cannot be dropped: with ONE junk entry in the
+   evaluation cache (+INF for the position after Ka1-a2) the engine answers the null move at a root that has a legal move - so the
+   clause is false for arbitrary states, which is why it is stated for sane caches (every engine-produced cache is sane) *)
+From Clemens.C04Null Require NullExamples.
+Theorem C04_null_needs_cache_sane :
+  ~ (forall iters fuel s root req s',
+       legal_pos root -> (fuel <= 255)%nat -> (req < 255)%N -> s_pv s = [] ->
+       go_search iters fuel true s root req = (ROk NULL_MOVE, s') -> legal_moves go_keys root = Ok []).
+Proof. exact NullExamples.null_only_without_moves_any_state_refuted. Qed.
+Print Assumptions C04_null_needs_cache_sane.
+Example C04_stalemate_answers_null := NullExamples.stalemate_answers_null.
+Example C04_checkmate_answers_null := NullExamples.checkmate_answers_null.
+Example C04_one_move_answered := NullExamples.one_move_answered.
+Example C04_null_hyps_met_session := NullExamples.hyps_met_session.
